@@ -51,6 +51,12 @@ def state_pair_lines(la, lb):
 def process_twin(rng, rel, kinds):
     sc = rp.scenario(rng, kind=rng.choice(kinds))
     sc["N"] = min(sc["N"], 6)
+    decade = rel == "scaledec"
+    if decade:
+        # a sweep over absolute magnitudes: round feed amounts from a gram to a tonne, scaled by the largest / smallest exact factors
+        rel = "scale"
+        sc["m0"] = rng.choice([1e-3, 1e-2, 1.0, 12.0, 1e2, 1e3])
+        sc["N"] = min(sc["N"], 3)
     if rel == "trade":
         sc.pop("want_prog", None)
     if rel == "swap":
@@ -60,8 +66,12 @@ def process_twin(rng, rel, kinds):
         return None
     sb = dict(sc)
     k = 1.0
+    kpow2 = False
     if rel in ("scale", "trade", "dtonly"):
         k = rng.choice([2.0 ** rng.randrange(-10, 11), gen.logu(rng, 1e-3, 1e3)])
+        if decade:
+            k = 2.0 ** rng.choice([-10, -10, -7, 7, 10, 10])
+        kpow2 = (math.frexp(k)[0] == 0.5)
         if rel == "scale":
             sb["A"], sb["m0"] = sc["A"] * k, sc["m0"] * k
         elif rel == "trade":
@@ -81,7 +91,7 @@ def process_twin(rng, rel, kinds):
         pb = perv
     ra, rb = rp.run_process(perv, sc), rp.run_process(pb, sb)
     tr = [{"ev": "TwinStart", "level": "process", "rel": rel, "kfac": F(k), "kind": sc["kind"], "mode": sc["mode"],
-           "model": sc["model"], "probe": False, "N": sc["N"], "hasProg": sc["prog"] is not None, "mixname": sc["mix"].name,
+           "model": sc["model"], "probe": False, "N": sc["N"], "hasProg": sc["prog"] is not None, "mixname": sc["mix"].name, "kpow2": kpow2,
            "d3": d3_probe(sc["mix"], rng) if (rel == "swap" and sc["model"] == "UNIQUAC") else [],
            "a": rp.start_line(sc, ra), "b": rp.start_line(sb, rb)}]
     if ra["outcome"] == "return" and rb["outcome"] == "return":
